@@ -1,4 +1,221 @@
-(* Case runner and spec checker (T3) for C17 — stub. *)
-From WI Require Import Lib.Base Lib.Info Model.Uuid.
-Definition run_C17 (op : bytes) (input : arg) : arg := AL [].
-Definition check_C17 (op : bytes) (input impl : arg) : arg := AL [].
+(* Case runner and spec checker (T3) for C17. *)
+From WI Require Import Lib.Base Lib.Info Lib.Strings Lib.Time Model.Dispatch Model.Uuid.
+From WI Require Spec.C17.
+Open Scope N_scope.
+
+(* ---------- oracles for the other rows of the format table (as in Run/C07.v) ---------- *)
+Definition result_of_obs (a : arg) : result info :=
+  match a with
+  | AL [AZ 0%Z; i] => Ok (info_of_arg i)
+  | AL [AZ 2%Z] => Panic "oracle"
+  | _ => Err "oracle"
+  end.
+Fixpoint lookup_by {A} (key : row -> bytes) (n : bytes) (t : list row) (vals : list A) (d : A) : A :=
+  match t, vals with
+  | r :: t', v :: vals' => if bytes_eqb (key r) n then v else lookup_by key n t' vals' d
+  | _, _ => d
+  end.
+(* the UUID row is answered by the model, every other row by what the harness recorded *)
+Definition sniff_of (oracle : list arg) (n data : bytes) : bool :=
+  if bytes_eqb n (bs "IsUUID") then is_uuid_gen current data
+  else arg_bool (arg_nth 0 (lookup_by r_sniffer n table oracle (AL []))).
+Definition parse_of (oracle : list arg) (n data : bytes) : result info :=
+  if bytes_eqb n (bs "UUIDValue") then uuid_value_gen current data
+  else result_of_obs (arg_nth 1 (lookup_by r_parser n table oracle (AL []))).
+
+Definition dz (z : Z) : arg := AB (dec_of_Z z).
+
+Definition run_C17 (op : bytes) (input : arg) : arg :=
+  if bytes_eqb op (bs "describe") then
+    let name := arg_bytes (arg_nth 0 input) in
+    let data := arg_bytes (arg_nth 1 input) in
+    let oracle := arg_list (arg_nth 2 input) in
+    AL [ok_arg (is_uuid_gen current data);
+        obs_result arg_of_info (uuid_value_gen current data);
+        obs_result arg_of_info (inspect (sniff_of oracle) (parse_of oracle) name data)]
+  else if bytes_eqb op (bs "lib") then
+    let u := arg_bytes (arg_nth 0 input) in
+    let t := lib_time u in
+    AL [AZ (Z.of_N (version u)); dz t; dz (fst (lib_unix_time t)); dz (snd (lib_unix_time t));
+        AZ (Z.of_N (clock_sequence u)); AB (node_id u); AB (domain_string (dce_domain u));
+        AZ (Z.of_N (dce_id u)); AB (canon u)]
+  else if bytes_eqb op (bs "parse") then
+    obs_result AB (parse (arg_bytes (arg_nth 0 input)))
+  else if bytes_eqb op (bs "trim") then
+    AB (trim_space (arg_bytes (arg_nth 0 input)))
+  else if bytes_eqb op (bs "fmt") then
+    match unix_norm (arg_Z (arg_nth 0 input)) (arg_Z (arg_nth 1 input)) with
+    | (s, ns) => AB (fmt_datetime_frac7_utc s ns)
+    end
+  else AL [].
+
+(* ================= the property, evaluated on what the implementation reported ================= *)
+Import Spec.C17.
+
+Fixpoint lookup_attr (name : bytes) (l : list (bytes * bytes)) : option bytes :=
+  match l with
+  | [] => None
+  | (k, v) :: r => if bytes_eqb k name then Some v else lookup_attr name r
+  end.
+
+Definition is_digit (c : N) : bool := (48 <=? c) && (c <=? 57).
+Fixpoint read_digits (s : bytes) (acc : N) (k : nat) : N * nat * bytes :=
+  match s with
+  | c :: r => if is_digit c then read_digits r (acc * 10 + (c - 48)) (S k) else (acc, k, s)
+  | [] => (acc, k, [])
+  end.
+Definition digits (s : bytes) := read_digits s 0 0%nat.
+(* exactly w digits followed by the byte sep *)
+Definition field (w : nat) (sep : N) (s : bytes) : option (N * bytes) :=
+  match digits s with
+  | (v, k, c :: r) => if Nat.eqb k w && (c =? sep) then Some (v, r) else None
+  | _ => None
+  end.
+(* a plain decimal number and nothing else *)
+Definition read_decimal (s : bytes) : option N :=
+  match digits s with
+  | (v, S _, []) => Some v
+  | _ => None
+  end.
+
+(* "Y...-MM-DD hh:mm:ss[.f{1,7}]" -> (Unix seconds, 100-ns units of the fraction); the calendar
+   date is turned into a day number with days_of_civil (the direction the model does not use) *)
+Definition parse_shown_time (s : bytes) : option (Z * Z) :=
+  match digits s with
+  | (y, ky, 45 :: s1) =>
+    if Nat.ltb ky 4 then None else
+    match field 2 45 s1 with None => None | Some (mo, s2) =>
+    match field 2 32 s2 with None => None | Some (d, s3) =>
+    match field 2 58 s3 with None => None | Some (h, s4) =>
+    match field 2 58 s4 with None => None | Some (mi, s5) =>
+    match digits s5 with
+    | (sec, 2%nat, rest) =>
+        let frac := match rest with
+                    | [] => Some 0
+                    | 46 :: fr => match digits fr with
+                                  | (f, kf, []) => if Nat.leb 1 kf && Nat.leb kf 7 then Some (f * 10 ^ N.of_nat (7 - kf)) else None
+                                  | _ => None
+                                  end
+                    | _ => None
+                    end in
+        match frac with
+        | None => None
+        | Some f =>
+            if (1 <=? mo) && (mo <=? 12) && (1 <=? d) && (d <=? 31) && (h <? 24) && (mi <? 60) && (sec <? 60) then
+              let days := days_of_civil (Z.of_N y) (Z.of_N mo) (Z.of_N d) in
+              match civil_of_days days with
+              | (y', m', d') =>
+                  if (y' =? Z.of_N y)%Z && (m' =? Z.of_N mo)%Z && (d' =? Z.of_N d)%Z
+                  then Some ((days * 86400 + Z.of_N (h * 3600 + mi * 60 + sec))%Z, Z.of_N f)
+                  else None
+              end
+            else None
+        end
+    | _ => None
+    end end end end end
+  | _ => None
+  end.
+
+Definition shown_time_ok (attrs : list (bytes * bytes)) (d : Z) : bool :=
+  match lookup_attr (bs "Time (UTC)") attrs with
+  | Some s => match parse_shown_time s with
+              | Some (sec, f) => (sec =? spec_sec d)%Z && (f =? d mod 10000000)%Z
+              | None => false
+              end
+  | None => false
+  end.
+
+Definition attr_is_decimal (attrs : list (bytes * bytes)) (name : bytes) (v : N) : bool :=
+  match lookup_attr name attrs with
+  | Some s => match read_decimal s with Some x => x =? v | None => false end
+  | None => false
+  end.
+Definition attr_absent_or_decimal (attrs : list (bytes * bytes)) (name : bytes) (v : N) : bool :=
+  match lookup_attr name attrs with
+  | Some s => match read_decimal s with Some x => x =? v | None => false end
+  | None => true
+  end.
+(* 12 hexadecimal digits spelling the 48-bit node *)
+Definition attr_is_node (attrs : list (bytes * bytes)) (v : N) : bool :=
+  match lookup_attr (bs "Node id") attrs with
+  | Some s => match read_hex 12 0 s with Some (x, []) => x =? v | _ => false end
+  | None => false
+  end.
+Fixpoint skip_nondigits (s : bytes) : bytes :=
+  match s with
+  | c :: r => if is_digit c then s else skip_nondigits r
+  | [] => []
+  end.
+Definition domain_ok (attrs : list (bytes * bytes)) (dom : N) : bool :=
+  match lookup_attr (bs "Domain") attrs with
+  | Some s =>
+      let l := map lower s in
+      if dom =? 0 then bytes_eqb l (bs "person")
+      else if dom =? 1 then bytes_eqb l (bs "group")
+      else if dom =? 2 then bytes_eqb l (bs "org")
+      else (* an unnamed domain is shown by its number *)
+        match read_decimal (skip_nondigits s) with Some x => x =? dom | None => false end
+  | None => false
+  end.
+
+Fixpoint first_fail (l : list (bool * string)) : arg :=
+  match l with
+  | [] => AL []
+  | (true, _) :: r => first_fail r
+  | (false, msg) :: _ => AB (bytes_of_string msg)
+  end.
+
+Definition ck (b : bool) (m : string) : bool * string := (b, m).
+Arguments ck b%bool m%string.
+
+Definition version_prefix (v : N) : bytes := bs "UUID v" ++ [48 + v; 32].
+
+Definition check_info (n : N) (i : info) : arg :=
+  let desc := i_desc i in
+  let attrs := i_attrs i in
+  let v := spec_version n in
+  let named := (1 <=? v) && (v <=? 8) in
+  let time_checks :=
+    match spec_unix100 n with
+    | Some d => [ck (shown_time_ok attrs d) "Time (UTC) differs from the timestamp encoded in the UUID (RFC 9562 5.1/5.6/5.7)"]
+    | None => []
+    end in
+  first_fail (
+    [ck (prefix_of (bs "UUID") desc) "a single UUID is not reported as a UUID";
+     ck (negb (n =? spec_nil) || contains (bs "Nil") desc) "the Nil UUID is not named as such";
+     ck (negb (n =? spec_max) || contains (bs "Max") desc) "the Max UUID is not named as such";
+     ck ((n =? spec_nil) || negb (contains (bs "Nil") desc)) "a UUID that is not the Nil UUID is called Nil";
+     ck ((n =? spec_max) || negb (contains (bs "Max") desc)) "a UUID that is not the Max UUID is called Max";
+     ck (negb named || prefix_of (version_prefix v) desc) "the version encoded in octet 6 is not the version reported";
+     ck (named || negb (prefix_of (bs "UUID v") desc)) "a version is reported that the UUID does not encode"]
+    ++ time_checks ++
+    [ck (negb (v =? 1) || attr_absent_or_decimal attrs (bs "Time (raw)") (spec_time_v1 n)) "Time (raw) is not the 60-bit timestamp (v1)";
+     ck (negb (v =? 6) || attr_absent_or_decimal attrs (bs "Time (raw)") (spec_time_v6 n)) "Time (raw) is not the 60-bit timestamp (v6)";
+     ck (negb (v =? 1) || attr_is_node attrs (spec_node n)) "Node id differs from the node field";
+     ck (negb (v =? 1) || attr_is_decimal attrs (bs "Clock sequence") (spec_clock_seq n)) "Clock sequence differs from the 14-bit field";
+     ck (negb (v =? 2) || domain_ok attrs (spec_dce_domain n)) "DCE domain differs from octet 9";
+     ck (negb (v =? 2) || attr_is_decimal attrs (bs "Id") (spec_dce_id n)) "DCE identifier differs from time_low";
+     ck (negb (v =? 2) || attr_is_node attrs (spec_node n)) "Node id differs from the node field (v2)"]).
+
+Definition check_C17 (op : bytes) (input impl : arg) : arg :=
+  if bytes_eqb op (bs "describe") then
+    let data := arg_bytes (arg_nth 1 input) in
+    let isu := arg_bool (arg_nth 0 impl) in
+    match spec_uuid_of_text data with
+    | None =>
+        if isu then AS "text that is not exactly one UUID is accepted as a UUID (IsUUID)"
+        else match arg_nth 2 impl with
+             | AL [AZ 0%Z; ia] =>
+                 if prefix_of (bs "UUID") (i_desc (info_of_arg ia))
+                 then AS "text that is not exactly one UUID is reported as a UUID" else AL []
+             | AL [AZ 2%Z] => AS "inspection panicked"
+             | _ => AL []
+             end
+    | Some n =>
+        if negb isu then AS "a single UUID in canonical, braced, URN or bare-hex form is not recognised"
+        else match arg_nth 2 impl with
+             | AL [AZ 0%Z; ia] => check_info n (info_of_arg ia)
+             | _ => AS "inspection of a single UUID failed"
+             end
+    end
+  else AL [].
